@@ -595,3 +595,87 @@ def r1d_division(ctx):
 
 
 RULES += [r1d_division]
+
+
+# ------------------------------------------------------------------ congruences: residues
+CI = "include/crab/domains/congruence_impl.hpp"
+
+
+def r8_congruence_residues(ctx):
+    ctx.rule("C08.r8", "congruences: Number::operator% truncates (C20.r1), so it may only be used for divisibility tests (X % Y == 0), "
+             "inside gcd / the mod helper, or on two singletons (the concrete remainder); every residue that is compared or stored "
+             "goes through the non-negative mod helper; inclusion never divides by the modulus 0 of a singleton", floor=6)
+    fs = [f for f in ctx.db.fns(CI) if "congruence" in (f.get("cpk") or "") or "congruence_impl" in (f.get("qn") or "")]
+    if not ctx.need(fs, "congruence members"):
+        return
+    n = 0
+    for fn in fs:
+        body = fn["body"]
+        g = paths.guards(body)
+        name = fn["name"]
+        for x, ps in walk_with_parents(body):
+            if not (x.get("k") == "call" and x.get("op") == "%" and callee(x) and (callee(x).get("cpk") or "").endswith("z_number")):
+                continue
+            n += 1
+            if name in ("mod", "inverse_mod", "gcd_helper"):
+                ctx.ok("%s: %% inside the helper" % name, fn, x)
+                continue
+            # divisibility test:  (X % Y) == 0
+            parent = ps[-1] if ps else None
+            while parent is not None and parent.get("k") in ("cast", "paren"):
+                parent = ps[ps.index(parent) - 1] if ps.index(parent) > 0 else None
+            divis = False
+            for p in reversed(ps):
+                pp = cmp_parts(p)
+                if pp and pp[0] in ("==", "!="):
+                    other = pp[2] if any(y is x for y in walk(pp[1])) else pp[1]
+                    so = strip(other)
+                    while isinstance(so, dict) and so.get("k") == "ctor" and so.get("a"):
+                        so = strip(so["a"][0])
+                    if isinstance(so, dict) and so.get("k") == "lit" and so.get("v") == "0":
+                        divis = True
+                    break
+                if p.get("k") in ("seq", "if", "ret", "decl"):
+                    break
+            if divis:
+                ctx.ok("%s: divisibility test `%s`" % (name, src(x)[:40]), fn, x)
+                continue
+            # both operands singletons (m_a == 0 && o.m_a == 0): the concrete remainder
+            def single(c):
+                c = strip(c)
+                if isinstance(c, dict) and c.get("k") == "bin" and c.get("op") == "&&":
+                    return 1 if (single(c.get("L")) and single(c.get("R"))) else 0
+                pp = cmp_parts(c)
+                if pp and pp[0] == "==" and any(is_field(y, "m_a") for y in walk(c)) and \
+                        any(isinstance(strip(z), dict) and strip(z).get("k") in ("lit", "ctor") for z in (pp[1], pp[2])):
+                    return 1
+                return 0
+            if name == "operator%" and guard_truth(g.get(id(x), ()), single, body) is True:
+                ctx.ok("operator%: concrete remainder of two singletons", fn, x)
+                continue
+            ctx.bad("congruence::%s computes a residue with the truncating `%s`: for a negative left operand the result is negative, so "
+                    "equal residues compare different and the normal form 0 <= b < a is not established (e.g. 1 is reported outside "
+                    "2Z-1)" % (name, src(x)[:50]), fn, x, sig="truncating-residue:%s" % name)
+    if n == 0:
+        ctx.fail("rule C08.r8: no use of % found in congruence_impl.hpp")
+    # inclusion: no division by the modulus of a singleton right operand
+    for fn in [f for f in fs if f["name"] == "operator<="]:
+        body = fn["body"]
+        g = paths.guards(body)
+        for x in walk(body):
+            if x.get("k") == "call" and x.get("op") == "%" and x.get("a") and is_field(strip(x["a"][0]), "m_a") and is_param(deref(strip(x["a"][0])).get("b"), fn, 0):
+                def right_single(c):
+                    pp = cmp_parts(c)
+                    if pp and pp[0] == "==" and any(is_field(y, "m_a") and is_param(deref(y).get("b"), fn, 0) for y in walk(c)) and \
+                            not any(is_field(y, "m_a") and is_this(deref(y).get("b")) for y in walk(c)):
+                        return 1
+                    return 0
+                t = guard_truth(g.get(id(x), ()), right_single, body)
+                if t is False:
+                    ctx.ok("operator<=: `%s` only when the right operand is not a singleton" % src(x)[:30], fn, x)
+                else:
+                    ctx.bad("congruence::operator<= evaluates `%s` although the right operand can be a singleton (modulus 0): division by "
+                            "zero aborts the analysis" % src(x)[:40], fn, x, sig="leq-mod-zero")
+
+
+RULES += [r8_congruence_residues]
